@@ -585,14 +585,21 @@ func TestC08(t *testing.T) {
 			}
 			var wires [][]byte
 			var infos []routed
+			unsignedIn := map[int]bool{}
 			for i := 0; i < vh.Pick(150, 3000) && i < len(forRouter); i++ {
 				ro := forRouter[r.Intn(len(forRouter))]
 				s := *ro.in
-				// with an outgoing key the received frames are signed (by the same key: a signed link being re-stamped)
-				if withKey && s.Version == 2 {
+				// with an outgoing key the received frames are signed (by the same key: a signed link being re-stamped) ...
+				if withKey && s.Version == 2 && i%4 != 3 {
 					s.Signed, s.Incompat = true, 1
 					s.Timestamp = uint64(1000 + i)
 					ref.Seal(&s, ro.mi.Layout.CRCExtra, inKeyRaw)
+				} else if withKey && s.Version == 2 {
+					// ... except every fourth one, which arrives unsigned (the router checks no signatures): whatever FixFrame makes
+					// of it (today: it leaves unsigned), it is one valid frame for a next hop that has the dialect and no key
+					s.Signed, s.Incompat = false, 0
+					ref.Seal(&s, ro.mi.Layout.CRCExtra, nil)
+					unsignedIn[len(wires)] = true
 				} else if withKey {
 					continue
 				}
@@ -613,7 +620,7 @@ func TestC08(t *testing.T) {
 			// promises checksum validity only, so it goes to a next hop without InKey.
 			var fixedOuts, plainOuts [][]byte
 			for i, o := range outs {
-				if perIn == 2 && i%2 == 0 && mode != "fan-out-copies" {
+				if (perIn == 2 && i%2 == 0 && mode != "fan-out-copies") || unsignedIn[i/perIn] {
 					plainOuts = append(plainOuts, o)
 				} else {
 					fixedOuts = append(fixedOuts, o)
